@@ -44,6 +44,7 @@ class Interp:
         self.fns = fns
         self.defs = defs
         self.solver = z3.Solver()
+        self.solver.set('timeout', 20000)
         self.stats = {'steps': 0, 'queries': 0, 'qtime': 0.0, 'forks': 0, 'calls_interpreted': 0, 'calls_modelled': 0}
         self.models = []            # [(regex, handler, label)]
         self.models_used = {}       # label -> count
@@ -119,14 +120,21 @@ class Interp:
             return True
         self.stats['queries'] += 1
         t = time.time()
-        self.solver.push()
-        self.solver.add(*conds)
+        sol = z3.Solver()        # a fresh (non-incremental) solver: z3 then applies its bit-vector preprocessing
+        sol.set('timeout', 30000)
+        sol.add(*conds)
         if extra is not None:
-            self.solver.add(extra)
-        r = self.solver.check()
-        self.solver.pop()
+            sol.add(extra)
+        r = sol.check()
         self.stats['qtime'] += time.time() - t
         if r == z3.unknown:
+            import os
+            if os.environ.get('VERIF_DUMPQ'):
+                sq = z3.Solver()
+                sq.add(*conds)
+                if extra is not None:
+                    sq.add(extra)
+                open(os.environ['VERIF_DUMPQ'], 'w').write(sq.to_smt2())
             raise Inconclusive('solver returned unknown on a feasibility query')
         if r == z3.sat and extra is None:
             st.meta['pc_checked'] = len(st.pc)
@@ -318,6 +326,18 @@ class Interp:
             return Struct(t.strip(), ())
         if s in self.named_consts:
             return self.named_consts[s]
+        m = re.fullmatch(r'(u8|u16|u32|u64|usize|i8|i16|i32|i64|isize|u128|i128)::(MAX|MIN)', s)
+        if m:
+            w = INT_W[m.group(1)]
+            sg = m.group(1) in SIGNED
+            if m.group(2) == 'MAX':
+                return bv((1 << (w - 1)) - 1 if sg else (1 << w) - 1, m.group(1))
+            return bv(-(1 << (w - 1)) if sg else 0, m.group(1))
+        if re.fullmatch(r'[\w:]+', s) and not s.startswith(('std::', 'core::')):
+            last = s.split('::')[-1]
+            cands = [lst[0] for name, lst in self.fns.items() if lst[0].kind in ('const', 'static') and name.split('::')[-1] == last and 'promoted' not in name]
+            if len(cands) == 1 and last.isupper():
+                return self.eval_const_item(st, cands[0])
         # promoted / named constants and statics with a body in the dump
         if s in self.fns and self.fns[s][0].kind in ('const', 'static'):
             return self.eval_const_item(st, self.fns[s][0])
@@ -377,6 +397,13 @@ class Interp:
                 v = self.deref(st, x)
                 if isinstance(v, VecVal):
                     return usize(len(v.items))
+                if isinstance(v, Struct) and v.names and 'len' in v.names:
+                    return v.get('len')
+                hook = getattr(self, 'len_hook', None)
+                if hook is not None:
+                    r = hook(self, st, v)
+                    if r is not None:
+                        return r
             raise Inconclusive('unop %s on %r' % (rv[1], x))
         if k == 'tuple':
             return Struct('tuple', [self.operand(st, fid, o, fn) for o in rv[1]])
@@ -696,10 +723,10 @@ class Interp:
         info = self._fninfo.get(id(fn))
         if info is None:
             name = fn.name
-            m = re.search(r'<impl at (\S+?):(\d+):(\d+): \d+:\d+>', name)
+            ms = re.findall(r'<impl at (\S+?):(\d+):(\d+): \d+:\d+>', name)
             impl = (None, None)
-            if m:
-                impl = self.defs.impl_header(m.group(1), int(m.group(2)), int(m.group(3)))
+            if ms:
+                impl = self.defs.impl_header(ms[-1][0], int(ms[-1][1]), int(ms[-1][2]))
             selfty = None
             if fn.params:
                 selfty = self.defs.tykey(re.sub(r"^&('\w+ )?(mut )?", '', fn.params[0][1]))
@@ -760,6 +787,14 @@ class Interp:
                     if isinstance(v, (Struct, Enum)):
                         tkey = self.defs.tykey(v.ty)
             exact = [f for f in cands if self.fninfo(f)['impl_trait'] == pc['trait'] and self.fninfo(f)['impl_ty'] == tkey]
+            if len(exact) > 1:
+                segs_ = [x for x in strip_generics(re.sub(r"^&('\w+ )?(mut )?", '', ty)).split('::') if x]
+                if len(segs_) > 1:
+                    hinted = [f for f in exact if (segs_[-2] + '::<impl') in f.name]
+                    if not hinted:
+                        hinted = [f for f in exact if re.search(r'(^|::)%s::' % re.escape(segs_[-2]), f.name)]
+                    if len(hinted) == 1:
+                        exact = hinted
             if len(exact) == 1:
                 return exact[0]
             # macro-generated impls: match on receiver type
@@ -839,10 +874,10 @@ class Interp:
 
     def instantiation(self, fn, callee):
         """type-parameter environment of a generic impl method called through `callee`"""
-        m = re.search(r'<impl at (\S+?):(\d+):(\d+): \d+:\d+>', fn.name)
-        if not m:
+        ms = re.findall(r'<impl at (\S+?):(\d+):(\d+): \d+:\d+>', fn.name)
+        if not ms:
             return None
-        params, self_args = self.defs.impl_generics(m.group(1), int(m.group(2)))
+        params, self_args = self.defs.impl_generics(ms[-1][0], int(ms[-1][1]))
         if not params:
             return None
         pc = self.parse_callee(callee)
